@@ -131,6 +131,14 @@ Theorem analyticD3_scale_partial : forall s, 0 < s -> forall v0 v1 v2 x, cop_sam
 Proof. exact analyticD3_f_scale. Qed.
 Print Assumptions analyticD3_scale_partial.
 
+Theorem analyticD3_scale_refuted :
+  (forall d y1 y2 y3, coplanar_test OpsR d y1 y2 y3 = coplanar_abs d y1 y2 y3) ->
+  exists s v0 v1 v2 x, 0 < s /\
+    analyticD3_f OpsR (analyticD3_init OpsR (scl s v0) (scl s v1) (scl s v2)) (scl s x)
+    <> analyticD3_f OpsR (analyticD3_init OpsR v0 v1 v2) x.
+Proof. exact analyticD3_abs_scale_refuted. Qed.
+Print Assumptions analyticD3_scale_refuted.
+
 Theorem analyticD3_scale :
   (forall d y1 y2 y3, coplanar_test OpsR d y1 y2 y3 = coplanar_rel d y1 y2 y3) ->
   forall s, 0 < s -> forall v0 v1 v2 x,
